@@ -341,12 +341,9 @@ func runC11(c *Ctx) {
 			if !ok {
 				return true
 			}
-			if be, ok := ix.Index.(*ast.BinaryExpr); ok && be.Op == token.SUB {
-				if a := lenArg(info, be.X); a != nil && types.ExprString(a) == types.ExprString(ix.X) {
-					if tv := info.Types[be.Y]; tv.Value != nil && tv.Value.String() == "1" {
-						last = true
-					}
-				}
+			// the index evaluates to len(<the indexed slice>) - 1 (locals assigned once are resolved: n := len(cks); cks[n-1])
+			if cn, k, ok := lenMinusConst(info, fi.Decl.Body, ix.Index, types.ExprString(ix.X), 0); ok && cn == 1 && k == -1 {
+				last = true
 			}
 			return true
 		})
@@ -877,4 +874,61 @@ func isPendingWrapper(c *Ctx, fn *types.Func, depth int) bool {
 		return true
 	})
 	return rets > 0 && rets == good
+}
+
+// lenMinusConst evaluates e to cn*len(arr) + k, resolving local variables that are assigned exactly once.
+func lenMinusConst(info *types.Info, body ast.Node, e ast.Expr, arr string, depth int) (cn, k int, ok bool) {
+	e = ast.Unparen(e)
+	if depth > 4 {
+		return 0, 0, false
+	}
+	if tv := info.Types[e]; tv.Value != nil {
+		if v, err := parseInt(tv.Value.String()); err == nil {
+			return 0, v, true
+		}
+	}
+	if a := lenArg(info, e); a != nil && types.ExprString(a) == arr {
+		return 1, 0, true
+	}
+	switch x := e.(type) {
+	case *ast.Ident:
+		obj := info.ObjectOf(x)
+		var def ast.Expr
+		cnt := 0
+		ast.Inspect(body, func(m ast.Node) bool {
+			switch y := m.(type) {
+			case *ast.AssignStmt:
+				for j, l := range y.Lhs {
+					if id, isID := l.(*ast.Ident); isID && info.ObjectOf(id) == obj {
+						cnt++
+						if len(y.Rhs) == len(y.Lhs) {
+							def = y.Rhs[j]
+						} else {
+							cnt += 10
+						}
+					}
+				}
+			case *ast.IncDecStmt:
+				if id, isID := y.X.(*ast.Ident); isID && info.ObjectOf(id) == obj {
+					cnt += 10
+				}
+			}
+			return true
+		})
+		if cnt == 1 && def != nil {
+			return lenMinusConst(info, body, def, arr, depth+1)
+		}
+	case *ast.BinaryExpr:
+		an, ak, ok1 := lenMinusConst(info, body, x.X, arr, depth+1)
+		bn, bk, ok2 := lenMinusConst(info, body, x.Y, arr, depth+1)
+		if ok1 && ok2 {
+			switch x.Op {
+			case token.ADD:
+				return an + bn, ak + bk, true
+			case token.SUB:
+				return an - bn, ak - bk, true
+			}
+		}
+	}
+	return 0, 0, false
 }
